@@ -100,6 +100,22 @@ async fn one_config(a: Args, idx: usize, proto: Proto, transport: Transport) -> 
             rep.violation(sig, format!("{} over {} ({:?}): {}", proto.name(), transport.name(), spec.kind, sym), json!({"seed": a.seed, "config_index": idx, "deploy": d.describe(), "flow": spec.describe(), "observed": v.detail, "client_log_tail": pair.client.log_tail(6), "server_log_tail": pair.server.log_tail(6)}));
         }
     }
+    // flows in which the application sends nothing and the target speaks first (0 bytes in one direction)
+    {
+        let nonce = rng.next_u64();
+        let n = *rng.pick(&[1usize, 100, 20000]);
+        if let Ok(g) = start_greeter(nonce, n).await {
+            for kind in [LocalKind::Socks5V4, LocalKind::HttpConnect] {
+                let r = run_silent_app(d.client_port, kind, host_for(kind), g.port, nonce, n, Duration::from_secs(8)).await;
+                rep.case(&(idx, "target-first", format!("{:?}", kind)), true);
+                rep.mon("target_speaks_first_flows", 1);
+                match r {
+                    Ok(k) => rep.mon("payload_bytes_verified", k as u64),
+                    Err(sym) => rep.violation(format!("C01|{}|{}|{:?}|target-speaks-first:{}", proto.name(), transport.name(), kind, sym), format!("{} over {}: application sends nothing, target speaks first: {}", proto.name(), transport.name(), sym), json!({"seed": a.seed, "config_index": idx, "deploy": d.describe(), "greeting_bytes": n})),
+                }
+            }
+        }
+    }
     for u in reg.unattributed.lock().unwrap().iter() {
         rep.violation(format!("C01|{}|{}|unattributed-connection-at-target", proto.name(), transport.name()), u.clone(), json!({"deploy": d.describe()}));
     }
